@@ -163,6 +163,10 @@ def generate(rng, tier: str, index: int) -> dict:
                 bad = rng.choice([f'announce route 10.78.{len(cmds) % 250}.0/24 med 100', f'announce route 10.78.{len(cmds) % 250}.0/33 next-hop 10.0.0.9', f'frobnicate route 10.78.{len(cmds) % 250}.0/24 next-hop 10.0.0.9'])
                 subs.insert(rng.randint(0, len(subs)), {'op': 'bad', 'text': bad})
             cmds.append({'k': rng.choice(['group', 'group', 'mgroup']), 'sel': gen_selector(rng, nbrs), 'subs': subs})
+            f = rng.fork('group-shared')  # (a side stream: the plans generated so far keep their draws)
+            if f.chance(0.35) and cmds[-1]['k'] == 'group':  # (the one-line form only: a bare `attributes` line is no command)
+                # `attributes ...` first in the group: every member announced after it carries these too, and only these
+                cmds[-1]['shared_ext'] = [900 + len(cmds) % 90]
         elif r < 0.93:
             cmds.append({'k': 'long', 'n': rng.choice([5000, 20000, 70000])})
         elif r < 0.96:
@@ -257,7 +261,9 @@ def build_commands(plan: dict):
                     r['v'] = None
                 parts.append(('announce ' if s['op'] == 'ann' else 'withdraw ') + RW.route_text(r, variants))
             has_bad = any(s['op'] == 'bad' for s in c['subs'])
-            good = [s for s in c['subs'] if s['op'] != 'bad']
+            good = [dict(s, route=dict(s['route'], shared_ext=c.get('shared_ext'))) for s in c['subs'] if s['op'] != 'bad']
+            if c.get('shared_ext'):
+                parts.insert(0, 'attributes extended-community [ ' + ' '.join(f'target:64999:{n}' for n in c['shared_ext']) + ' ]')
             if k == 'mgroup':
                 # the multi-line form: bare members are buffered (one acknowledgement each) and served, for every neighbor, by `group end`
                 out.append({'text': 'group start', 'expect': 'done', 'effects': [], 'acked': acked, 'k': 'mgroup-start'})
@@ -287,6 +293,21 @@ def build_commands(plan: dict):
             text = ''  # an empty line is handed to the dispatcher like a comment and acknowledged
             expect = None
         out.append({'text': text, 'expect': expect, 'effects': effects, 'acked': acked, 'k': k})
+    return out
+
+
+def shared_of(cmds, idx: int) -> dict:
+    """route key -> the extended communities the `attributes` line of its group added (last announce wins)"""
+    out: dict = {}
+    for c in cmds:
+        for i, op, r in c['effects']:
+            if i != idx:
+                continue
+            key = RW.key_of(r['p'], None, False)
+            if op == 'ann' and r.get('shared_ext'):
+                out[key] = [RW.ext_hex(64999, n) for n in r['shared_ext']]
+            else:
+                out.pop(key, None)
     return out
 
 
@@ -467,7 +488,7 @@ def execute(plan: dict) -> dict:
             peer = w.peer_for(nb['peer_ip'])
             snap['rep'][nb['idx']] = {k: ((RW.LOCAL if v[0] == 'self' else v[0]),) + tuple(v[1:]) for k, v in RW.reported_table(peer.neighbor, False).items()} if peer is not None else None
         snap['peer'] = {nb['idx']: (RW.peer_view(speakers[nb['idx']].established().table) if speakers[nb['idx']].established() else None) for nb in nbrs}
-        snap['attrs'] = {nb['idx']: (RW.attrs_mismatch(speakers[nb['idx']].established().table, variants, nb) if speakers[nb['idx']].established() else None) for nb in nbrs}
+        snap['attrs'] = {nb['idx']: (RW.attrs_mismatch(speakers[nb['idx']].established().table, variants, nb, shared_of(cmds, nb['idx'])) if speakers[nb['idx']].established() else None) for nb in nbrs}
 
     def check_sync() -> None:
         # after the sync-mode loss: every command of the second stream must have exactly one terminal reply, and the
